@@ -10,8 +10,8 @@ from . import extract
 from .classes import ClassTable
 from .contracts import REG
 from .state import Exc, FieldAlias, Frame, Outcome, State
-from .types import (BOOL, FLOAT, INT, NONE, STR, T, TEnum, TFloat, TMap, TNone, TOpaque, TOpt, TRef, TSeq, TSet,
-                    TTuple, comps, zsort)
+from .types import (BOOL, FLOAT, INT, NONE, STR, T, TEnum, TFloat, TInt, TMap, TNone, TOpaque, TOpt, TRef, TSeq,
+                    TSet, TTuple, comps, zsort)
 from .values import (EngineError, V, coerce, default, f_wf, fresh, fresh_name, mk_bool, opt_isnone, opt_val)
 
 MAX_PATHS = 6000
